@@ -523,13 +523,20 @@ def really_changed(path_stmts, local_names=None):
                 if isinstance(root, ast.Name):
                     changed.add(root.id)
         if isinstance(s, (ast.Assign, ast.AnnAssign, ast.AugAssign)) and s.value is not None:
+            flat_targets = []
             for t in s.targets if isinstance(s, ast.Assign) else [s.target]:
+                if isinstance(t, (ast.Tuple, ast.List)) and any(isinstance(x, (ast.Subscript, ast.Attribute)) for x in t.elts):
+                    # `d["k"], v = f(...)`: each element is a target of its own
+                    flat_targets.extend(t.elts)
+                else:
+                    flat_targets.append(t)
+            for t in flat_targets:
                 if isinstance(t, (ast.Subscript, ast.Attribute)):
                     root = t
                     while isinstance(root, (ast.Subscript, ast.Attribute)):
                         root = root.value
                     if isinstance(root, ast.Name):
-                        if not isinstance(s, ast.AugAssign) and _maybe_identity(norm_text(t), s.value):
+                        if not isinstance(s, ast.AugAssign) and len(flat_targets) == 1 and _maybe_identity(norm_text(t), s.value):
                             maybe_same.add(root.id)
                         else:
                             changed.add(root.id)
